@@ -274,8 +274,124 @@ EvalSubst(r) ==
            IF FV(r.out) = expectFV THEN [Zero EXCEPT !.n = 1, !.t = 1, !.ident = 1, !.atoms = 1]
            ELSE [Zero EXCEPT !.dis = 1, !.wit = [note |-> "free variables differ", got |-> FV(r.out), expected |-> expectFV]], "")>>
 
+
+\* ---------------------------------------------------------------- kind "completion" / "completable": C04
+\* (a) for a tight program: the classical models of anthem's completion(tau*(P), inputs) over the base are
+\*     exactly the stable models of P with the model's own input facts; every non-input predicate defined.
+\* (b) a theory showing one of the four listed defects is refused; an accepted theory's completion is
+\*     classically equivalent to the reference completion built here from the definition.
+RECURSIVE GroundAll(_, _)
+GroundAll(fs, env) == IF fs = <<>> THEN TT
+                      ELSE LET g == Ground(Head(fs), env) IN IF g.k = "F" THEN FF ELSE PAnd(g, GroundAll(Tail(fs), env))
+PredSet(ps) == {<<ps[k].p, ps[k].n>> : k \in DOMAIN ps}
+
+\* stable models with indexed atoms: T and the input atoms are sets of indices
+StableIdx(g, T, inputIdx) ==
+  LET c == PCI(g, T) IN
+  IF c = 0 THEN 0
+  ELSE LET fixed == T \cap inputIdx
+           free == T \ fixed
+           below == {PS2(g, fixed \cup S, T) \div 3 : S \in (SUBSET free) \ {free}}
+       IN IF 2 \in below THEN 0 ELSE IF c = 1 \/ 1 \in below THEN 1 ELSE 2
+
+StableEnum(gProg, gComp, inputs, extra) ==
+  LET atoms == PAtoms(gProg) \cup PAtoms(gComp)
+      nb == TLCEval(Numbering(atoms))
+      ix == TLCEval(Indexer(atoms, nb))
+      a == TLCEval(IndexTree(gComp, ix))
+      b == TLCEval(IndexTree(gProg, ix))
+      core == 1..(IF nb.n <= CLCap THEN nb.n ELSE CLCap)
+      inputIdx == {k \in 1..nb.n : <<nb.at[k][1], Len(nb.at[k][2])>> \in inputs}
+      res == FoldSet(LAMBDA T, acc : TallyE(acc, PCI(a, T), StableIdx(b, T, inputIdx), [T |-> T]), ZeroE, SUBSET core)
+  IN [n |-> res.n, unk |-> res.unk, t |-> res.t, f |-> res.f, dis |-> res.d1 + res.d2,
+      wit |-> IF res.d1 > 0 THEN [I |-> UnIndex(res.w1.T, nb), anthem |-> "model of the completion", reference |-> "not a stable model", env |-> extra]
+              ELSE IF res.d2 > 0 THEN [I |-> UnIndex(res.w2.T, nb), anthem |-> "not a model of the completion", reference |-> "stable model", env |-> extra]
+              ELSE <<>>,
+      groups |-> 1, ident |-> 0, atoms |-> nb.n]
+
+\* --- the reference completion, built on trees from the definition (Appendix B of the external-equivalence paper)
+StripAll(f) == IF f.k = "forall" THEN f.f ELSE f
+RuleShaped(f) == StripAll(f).k \in {"imp", "rimp"}
+HeadOfF(f) == LET x == StripAll(f) IN IF x.k = "imp" THEN x.r ELSE x.l
+BodyOfF(f) == LET x == StripAll(f) IN IF x.k = "imp" THEN x.l ELSE x.r
+VarKeyOf(t) == <<t.v, t.s>>
+AllVarArgs(h) == \A k \in DOMAIN h.args : h.args[k].k = "var"
+DistinctArgs(h) == \A k, m \in DOMAIN h.args : k # m => h.args[k] # h.args[m]
+FreeVarKeys(f) == {key \in FV(f) : ~IsFcKey(key)}
+ReasonFree(f) == FreeVarKeys(f) # {}
+ReasonNonVar(f) == RuleShaped(f) /\ HeadOfF(f).k = "atom" /\ ~AllVarArgs(HeadOfF(f))
+ReasonRepeat(f) == RuleShaped(f) /\ HeadOfF(f).k = "atom" /\ AllVarArgs(HeadOfF(f)) /\ ~DistinctArgs(HeadOfF(f))
+DefFormulas(th) == {k \in DOMAIN th : RuleShaped(th[k]) /\ HeadOfF(th[k]).k = "atom"}
+ReasonMismatch(th) == \E k, m \in DefFormulas(th) :
+                         LET h1 == HeadOfF(th[k]) h2 == HeadOfF(th[m])
+                         IN h1.p = h2.p /\ Len(h1.args) = Len(h2.args) /\ h1 # h2
+HasListedReason(th) == ReasonMismatch(th) \/ \E k \in DOMAIN th : ReasonFree(th[k]) \/ ReasonNonVar(th[k]) \/ ReasonRepeat(th[k])
+InFragment(th) == \A k \in DOMAIN th : RuleShaped(th[k]) /\ HeadOfF(th[k]).k \in {"atom", "false"}
+KeysToVars(S) == LET sq == SetToSeq(S) IN [k \in DOMAIN sq |-> [n |-> sq[k][1], s |-> sq[k][2]]]
+Quant(q, S, f) == IF S = {} THEN f ELSE [k |-> q, vars |-> KeysToVars(S), f |-> f]
+RECURSIVE OrAll(_)
+OrAll(fs) == IF fs = <<>> THEN [k |-> "false"] ELSE IF Len(fs) = 1 THEN fs[1] ELSE [k |-> "or", l |-> fs[1], r |-> OrAll(Tail(fs))]
+RefCompletion(th, tpreds, inputs) ==
+  LET defs == DefFormulas(th)
+      heads == {HeadOfF(th[k]) : k \in defs}
+      hv(h) == {VarKeyOf(h.args[k]) : k \in DOMAIN h.args}
+      bodies(h) == LET ks == SetToSortSeq({k \in defs : HeadOfF(th[k]) = h}, <)
+                   IN [k \in DOMAIN ks |-> LET bd == BodyOfF(th[ks[k]]) IN Quant("exists", FreeVarKeys(bd) \ hv(h), bd)]
+      defined == {<<h.p, Len(h.args)>> : h \in heads}
+      completed == {Quant("forall", hv(h), [k |-> "iff", l |-> h, r |-> OrAll(bodies(h))])
+                      : h \in {x \in heads : <<x.p, Len(x.args)>> \notin inputs}}
+      empty == {LET vs == [k \in 1..pr[2] |-> [k |-> "var", v |-> "V" \o ToString(k), s |-> "g"]]
+                IN Quant("forall", {VarKeyOf(vs[k]) : k \in DOMAIN vs}, [k |-> "iff", l |-> [k |-> "atom", p |-> pr[1], args |-> vs], r |-> [k |-> "false"]])
+                  : pr \in (tpreds \ defined) \ inputs}
+      constraints == {LET f == th[k] IN Quant("forall", FreeVarKeys(f), f) : k \in {m \in DOMAIN th : RuleShaped(th[m]) /\ HeadOfF(th[m]).k = "false"}}
+  IN SetToSeq(constraints \cup completed \cup empty)
+
+\* every non-input predicate heads exactly one completed definition of anthem's output
+DefinesPred(f, pr) == LET x == StripAll(f) IN x.k = "iff" /\ x.l.k = "atom" /\ x.l.p = pr[1] /\ Len(x.l.args) = pr[2]
+DefinedOnce(comp, tpreds, inputs) ==
+  \A pr \in tpreds \ inputs : Cardinality({k \in DOMAIN comp : DefinesPred(comp[k], pr)}) = 1
+OkT == [Zero EXCEPT !.n = 1, !.t = 1, !.ident = 1, !.atoms = 1]
+BadT(w) == [Zero EXCEPT !.dis = 1, !.wit = w]
+
+EvalCompletion(r) ==
+  LET inputs == PredSet(r.inputs)
+      tpreds == PredSet(r.preds)
+      heads == PredSet(r.heads)
+  IN IF ~r.tight THEN <<Skip(r, "C04.completion_models_are_stable_models", "program is not tight")>>
+     ELSE IF inputs \cap heads # {} THEN <<Skip(r, "C04.completion_models_are_stable_models", "an input predicate heads a rule")>>
+     ELSE IF ~r.completed
+          THEN <<Out(r, "C04.tight_program_completed", BadT([note |-> "completion refused the tau* theory of a tight program"]), "")>>
+     ELSE LET gp == ProgramGround(r.rules)
+              gc == GroundAll(r.completion, EmptyEnv)
+              gr == GroundAll(RefCompletion(r.tau, tpreds, inputs), EmptyEnv)
+          IN <<Out(r, "C04.completion_models_are_stable_models", StableEnum(gp, gc, inputs, <<>>), ""),
+               Out(r, "C04.completion_vs_reference_completion", CLEquiv(gc, gr, <<>>), ""),
+               Out(r, "C04.every_noninput_predicate_defined_once",
+                   IF DefinedOnce(r.completion, tpreds, inputs) THEN OkT
+                   ELSE BadT([note |-> "a non-input predicate lacks its completed definition (or has several)"]), "")>>
+
+EvalCompletable(r) ==
+  LET inputs == PredSet(r.inputs)
+      tpreds == PredSet(r.preds)
+      th == r.theory
+  IN IF HasListedReason(th)
+     THEN <<Out(r, "C04.noncompletable_theory_refused",
+                IF r.completed THEN BadT([note |-> "a theory with a listed defect (free variable / non-variable or repeated head argument / mismatched heads) was completed"])
+                ELSE OkT, "")>>
+     ELSE IF ~InFragment(th) THEN <<Skip(r, "C04.noncompletable_theory_refused", "outside the rule fragment, no listed defect")>>
+     ELSE IF ~r.completed
+          THEN <<Out(r, "C04.completable_theory_completed", BadT([note |-> "a theory of closed rule-shaped formulas with matching distinct-variable heads was refused"]), "")>>
+     ELSE <<Out(r, "C04.completable_theory_completed", OkT, ""),
+            Out(r, "C04.completion_vs_reference_completion",
+                CLEquiv(GroundAll(r.completion, EmptyEnv), GroundAll(RefCompletion(th, tpreds, inputs), EmptyEnv), <<>>), ""),
+            Out(r, "C04.every_noninput_predicate_defined_once",
+                IF DefinedOnce(r.completion, tpreds, inputs) THEN OkT
+                ELSE BadT([note |-> "a non-input predicate lacks its completed definition (or has several)"]), "")>>
+
 EvalRecord(r) ==
   CASE r.kind = "rule" -> EvalRule(r)
+    [] r.kind = "completion" -> EvalCompletion(r)
+    [] r.kind = "completable" -> EvalCompletable(r)
     [] r.kind = "equiv" -> EvalEquiv(r)
     [] r.kind = "gamma" -> EvalGamma(r)
     [] r.kind = "subst" -> EvalSubst(r)
